@@ -435,8 +435,9 @@ func TestC20_StorageSecrets(t *testing.T) {
 		nSteps := rapid.IntRange(1, 5).Draw(rt, "steps")
 		var flowsDone []string
 		var refresh string
+		var usedRefresh, usedCodes []string
 		for i := 0; i < nSteps; i++ {
-			flow := rapid.SampledFrom([]string{"code-pkce", "hybrid", "implicit", "password", "client_credentials", "device", "par", "refresh", "revoke", "introspect"}).Draw(rt, "flow")
+			flow := rapid.SampledFrom([]string{"code-pkce", "hybrid", "implicit", "password", "client_credentials", "device", "par", "refresh", "refresh", "replay-refresh", "replay-code", "revoke", "introspect"}).Draw(rt, "flow")
 			flowsDone = append(flowsDone, flow)
 			switch flow {
 			case "code-pkce", "hybrid", "par":
@@ -466,6 +467,7 @@ func TestC20_StorageSecrets(t *testing.T) {
 					if tr.Refresh != "" {
 						refresh = tr.Refresh
 					}
+					usedCodes = append(usedCodes, ar.Code)
 				}
 			case "implicit":
 				ar := w.Authorize(url.Values{"client_id": {"A"}, "response_type": {"token"}, "state": {"state-0123456789"}, "redirect_uri": {redirectURI}, "scope": {"a"}}, h.Consent{})
@@ -491,7 +493,18 @@ func TestC20_StorageSecrets(t *testing.T) {
 			case "refresh":
 				if refresh != "" {
 					tr := token(url.Values{"grant_type": {"refresh_token"}, "refresh_token": {refresh}})
+					usedRefresh = append(usedRefresh, refresh)
 					refresh = tr.Refresh
+				}
+			case "replay-refresh":
+				// an already rotated refresh token is presented again (reuse detection path)
+				if len(usedRefresh) > 0 {
+					token(url.Values{"grant_type": {"refresh_token"}, "refresh_token": {usedRefresh[len(usedRefresh)-1]}})
+					refresh = ""
+				}
+			case "replay-code":
+				if len(usedCodes) > 0 {
+					token(url.Values{"grant_type": {"authorization_code"}, "code": {usedCodes[len(usedCodes)-1]}, "redirect_uri": {redirectURI}})
 				}
 			case "revoke":
 				if refresh != "" {
